@@ -319,7 +319,7 @@ def run(chk):
                     raise Refuted("consistency: sum of factors != 1", f"{float(sum(gs))}")
                 cond = sum(g ** (n - 1) for g in gs)
                 if abs(cond) > Fraction(1, 10 ** 12):
-                    raise Refuted(f"order-{n}-condition-fails",
+                    raise Refuted(f"order-{n}-condition-fails:sum_g^{n - 1}={float(cond):.6f}",
                                   f"triple jump to order {n}: factors {list(map(float, gs))}; sum g^{n - 1} = "
                                   f"{float(cond):.6f} (must be 0): the composition is only of order {n - 2}",
                                   replay=_REPLAY_ORDER % {"n": n},
